@@ -377,6 +377,7 @@ class MSTDPET(IndependentCellTrainer):
             dt=cell.connection.dt,
             amp=abs(state.lr_pre),
             tc=state.tc_post,
+            trace=state.tracemode,
         )
 
         # postsynaptic spike monitor (triggers hebbian LTP)
@@ -418,6 +419,7 @@ class MSTDPET(IndependentCellTrainer):
             dt=cell.connection.dt,
             amp=abs(state.lr_post),
             tc=state.tc_pre,
+            trace=state.tracemode,
         )
 
         # presynaptic spike monitor (triggers hebbian LTD)
